@@ -15,7 +15,7 @@ pub fn plan() -> Plan {
         meta: Meta {
             property: "C13",
             level: "exploration",
-            rule: "bounded-liveness probe after random call sequences: a history over the whole public API (data operations, try_* lifecycle calls, create/close/restore_active_blob_in_background in states where they do and do not apply, force_update_active_blob with predicates true / false / records>2, free_excess_resources, offload, fsync, restarts) runs on a storage with a record limit of 5 per blob; then the probe: (i) Storage::verif_worker_alive() - the worker task has not finished (timing-free); (ii) the active blob is filled beyond its record limit, the 200 ms rotation debounce is waited out once, at most 3 more records are written, each followed by a worker barrier: next_blob_id must have advanced and the previous blob must be closed; (iii) after barriers every non-empty closed blob has a current index file (written bit set, recorded blob size == size of the blob file): first without flushing deferred dumps (the worker's own timers must fire, bounded by 3 s of polling = 1000x the configured deferred maximum), plus a dedicated scenario in which try_close_active_blob requests a dump while the previous dump task is still running (its index write delayed 20-60 ms through an H1 failpoint): the request must still be served, and a variant in which one delete appends a marker to 3-5 dumped closed blobs while every index write takes 110-260 ms, so that the dump pass outlasts pearl's 200 ms time slice and must be continued without skipping a blob; the overflow probe exceeds a 5-record limit or a 500-byte size limit; a scenario steps the wall clock back (5 s, 1 h, 400 days; injected process-locally into CLOCK_REALTIME) after the active blob was created and requires rotation to go on; a third of the histories run with a dirty-byte limit of 0..1000 and blob syncs slowed by 2-9 ms, and every history runs under a timing-free hang monitor (pending + no file operation started, finished or in flight during >=100 consecutive samples over 15 s = deadlock); (iv) close() returns: while it is pending the I/O tap's in-flight counter and event count are sampled every 50 ms; 'pending, nothing in flight and no file operation during >=100 samples over 8 s' is reported as a hang, a watchdog firing while I/O still happens is inconclusive. Non-trivial = history containing a background request that did not apply in its state, or a deferred dump; distinct = hash(history).",
+            rule: "bounded-liveness probe after random call sequences: a history over the whole public API (data operations, try_* lifecycle calls, create/close/restore_active_blob_in_background in states where they do and do not apply, force_update_active_blob with predicates true / false / records>2, free_excess_resources, offload, fsync, restarts) runs on a storage with a record limit of 5 per blob; then the probe: (i) Storage::verif_worker_alive() - the worker task has not finished (timing-free); (ii) the active blob is filled beyond its record limit, the 200 ms rotation debounce is waited out once, at most 3 more records are written, each followed by a worker barrier: next_blob_id must have advanced and the previous blob must be closed; (iii) after barriers every non-empty closed blob has a current index file (written bit set, recorded blob size == size of the blob file): first without flushing deferred dumps (the worker's own timers must fire, bounded by 3 s of polling = 1000x the configured deferred maximum), plus a dedicated scenario in which try_close_active_blob requests a dump while the previous dump task is still running (its index write delayed 20-60 ms through an H1 failpoint): the request must still be served, and a variant in which one delete appends a marker to 3-5 dumped closed blobs while every index write takes 110-260 ms, so that the dump pass outlasts pearl's 200 ms time slice and must be continued without skipping a blob; the overflow probe exceeds a 5-record limit or a 500-byte size limit; a scenario keeps the worker busy inside a predicate while more than a channel's worth (1100) of other requests is queued and the limit-reaching write is issued, then lets go: the blob must still be replaced without a further write; a scenario steps the wall clock back (5 s, 1 h, 400 days; injected process-locally into CLOCK_REALTIME) after the active blob was created and requires rotation to go on; a third of the histories run with a dirty-byte limit of 0..1000 and blob syncs slowed by 2-9 ms, and every history runs under a timing-free hang monitor (pending + no file operation started, finished or in flight during >=100 consecutive samples over 15 s = deadlock); (iv) close() returns: while it is pending the I/O tap's in-flight counter and event count are sampled every 50 ms; 'pending, nothing in flight and no file operation during >=100 samples over 8 s' is reported as a hang, a watchdog firing while I/O still happens is inconclusive. Non-trivial = history containing a background request that did not apply in its state, or a deferred dump; distinct = hash(history).",
             assumptions: vec!["liveness is restated as bounded progress: N further operations + worker barriers; the only real-time waits are pearl's own 200 ms debounce and the deferred-dump timers", "verdict holds for the histories generated for this seed"],
         },
         shards: 16,
@@ -303,6 +303,72 @@ async fn run(l: &mut Loose<8>, ops: &[Op], pred_gt: &[bool]) -> Out {
     out
 }
 
+static GATE: std::sync::atomic::AtomicU8 = std::sync::atomic::AtomicU8::new(0);
+
+/// Worker busy and its channel full: a predicate passed to force_update_active_blob keeps the worker inside one
+/// request (it spins on a static gate, at most 8 s), meanwhile more than a channel's worth of other requests is
+/// queued by separate tasks, and one more write brings the active blob to its record limit. Then the gate opens.
+/// No further write follows: the request for the switch must not get lost in the crowd.
+async fn channel_full_scenario(l: &mut Loose<8>) -> Out {
+    use std::sync::atomic::Ordering;
+    let mut out = Out { violation: None, inconclusive: None, bg_inapplicable: 0, rotations: 0, index_files_checked: 0, polls: 0 };
+    if let Err(e) = l.open(false).await {
+        out.violation = Some(("init-failed-on-empty-dir".into(), e));
+        return out;
+    }
+    let s = std::sync::Arc::new(l.storage.take().unwrap());
+    for i in 0..4u64 {
+        let _ = s.write(&l.key((i % 4) as u16), bytes::Bytes::from(vec![i as u8; 24]), BlobRecordTimestamp::new(i)).await;
+    }
+    tokio::time::sleep(Duration::from_millis(260)).await;
+    let n0 = s.next_blob_id();
+    GATE.store(1, Ordering::SeqCst);
+    // (a non-capturing closure: the predicate type is a plain fn pointer and its argument type is not exported)
+    s.force_update_active_blob(|_| {
+        let t0 = Instant::now();
+        while GATE.load(std::sync::atomic::Ordering::SeqCst) == 1 && t0.elapsed() < Duration::from_secs(8) {
+            std::thread::sleep(Duration::from_millis(1));
+        }
+        false
+    })
+    .await;
+    // give the worker time to enter the predicate, then queue 1100 requests (the channel holds 1024)
+    tokio::time::sleep(Duration::from_millis(30)).await;
+    let mut fillers = Vec::new();
+    for _ in 0..1100 {
+        let s2 = s.clone();
+        fillers.push(tokio::spawn(async move {
+            let _ = s2.free_excess_resources().await;
+        }));
+    }
+    tokio::time::sleep(Duration::from_millis(50)).await;
+    let key = l.key(1);
+    let s3 = s.clone();
+    let w = tokio::spawn(async move { s3.write(&key, bytes::Bytes::from(vec![9u8; 24]), BlobRecordTimestamp::new(9)).await.is_ok() });
+    tokio::time::sleep(Duration::from_millis(50)).await;
+    GATE.store(0, Ordering::SeqCst);
+    let wrote = w.await.unwrap_or(false);
+    for f in fillers {
+        let _ = f.await;
+    }
+    let alive = s.verif_barrier(true).await;
+    let rotated = s.next_blob_id() > n0;
+    let cnt = s.records_count_in_active_blob().await;
+    if !alive {
+        out.violation = Some(("worker-dead".into(), "worker died in the channel-full scenario".into()));
+    } else if !wrote {
+        out.inconclusive = Some("the limit-reaching write failed in the channel-full scenario".into());
+    } else if !rotated {
+        out.violation = Some(("no-rotation-after-overflow/worker-busy-channel-full".into(), format!("the write that brought the active blob to its limit (5 records) was issued while the worker was busy and its channel was full; after the worker caught up (barrier) the blob was not replaced: {:?} records, and no further write will ask again", cnt)));
+    } else {
+        out.rotations += 1;
+    }
+    if let Ok(st) = std::sync::Arc::try_unwrap(s) {
+        let _ = tokio::time::timeout(Duration::from_secs(20), st.close()).await;
+    }
+    out
+}
+
 /// The wall clock steps back (NTP correction, VM resume) while the storage runs: the age of the active blob, which
 /// the rotation debounce looks at, is computed from wall-clock times. Rotation must go on. The step is injected
 /// process-locally into CLOCK_REALTIME (see clock.rs); timers use the monotonic clock and are not affected.
@@ -367,6 +433,32 @@ pub fn shard(ctx: &Ctx) -> Shard {
         let mut pred_gt: Vec<bool> = ops.iter().map(|_| rng.chance(1, 3)).collect();
         let dir = new_dir("c13-");
         let mut l: Loose<8> = Loose::new(dir.clone(), cfg.clone());
+        if n % 16 == 13 {
+            cfg.max_records = Some(5);
+            cfg.max_blob_size = None;
+            cfg.mt = true;
+            l.cfg = cfg.clone();
+            let r = block_on_catch(true, channel_full_scenario(&mut l));
+            GATE.store(0, std::sync::atomic::Ordering::SeqCst);
+            rm_dir(&dir);
+            n += 1;
+            sh.evaluations += 1;
+            sh.add("worker_busy_channel_full_scenarios", 1);
+            sh.nontrivial.insert(fnv(format!("chf-{}", n).as_bytes()));
+            let replay = json!({"check": "c13-channel-full", "cfg": cfg.to_json()});
+            match r {
+                Ok(out) => {
+                    if let Some(i) = out.inconclusive {
+                        sh.inconclusive.push(i);
+                    }
+                    if let Some((sig, detail)) = out.violation {
+                        sh.violation(&ctx.known, "C13", ctx.seed, &format!("C13/{}", sig), &detail, replay);
+                    }
+                }
+                Err(p) => sh.violation(&ctx.known, "C13", ctx.seed, "C13/panic", &p, replay),
+            }
+            continue;
+        }
         if n % 16 == 5 {
             cfg.max_records = Some(5);
             cfg.max_blob_size = None;
